@@ -168,6 +168,8 @@ class Translator:
                 lines += self.emit_loop(info)
             elif info.opts.get("snippet"):
                 lines += self.emit_snippet(info)
+            elif info.opts.get("straight"):
+                lines += self.emit_straight(info)
             else:
                 lines += self.emit_function(info)
             lines.append("")
@@ -1140,6 +1142,86 @@ class Translator:
         opts["opaque_fun"] = dict(opts.get("opaque_fun", {}))
         opts["opaque_fun"]["apply__"] = ("apply", 2)
         for pat, (nm, drop) in lo.get("collectives", {}).items():
+            opts["opaque_fun"][nm] = (nm, 1)
+        syn_info = FnInfo(info.qual, syn, None, opts)
+        syn_info.coqname = info.coqname
+        return self.emit_function(syn_info)
+
+    # ------------------------------------------------------------------ straight-line scripts with collectives
+    def emit_straight(self, info):
+        """opts['straight'] = dict(pre=[statement texts], post=[statement texts], params=[...],
+        replace={call text: parameter name}, apply=<call text>, apply_arg=<variable>,
+        sink=(callee, keyword carrying the value, {other keyword: expected text}),
+        collectives={callee: (name, {kw: text})}).
+        The function body must consist of exactly `pre` (ignored: set-up that only defines the
+        parameters), then the translated statements, then `post` (ignored).  Every effectful call in
+        the translated part must be one of: a `replace` call (becomes a parameter), the `apply`
+        call (becomes apply__(None, <apply_arg>)), the sink (its value is appended to writes__),
+        a collective.  Result: the tuple (writes__,)."""
+        st = info.opts["straight"]
+        body = list(info.node.body)
+        if body and isinstance(body[0], ast.Expr) and isinstance(body[0].value, ast.Constant) \
+                and isinstance(body[0].value.value, str):
+            body = body[1:]
+        texts = [ast.unparse(b) for b in body]
+        npre, npost = len(st["pre"]), len(st["post"])
+        if texts[:npre] != st["pre"]:
+            raise Unsupported("%s: set-up statements changed: %r" % (info.qual, texts[:npre]))
+        if npost and texts[len(texts) - npost:] != st["post"]:
+            raise Unsupported("%s: closing statements changed: %r" % (info.qual, texts[len(texts) - npost:]))
+        mid = body[npre:len(body) - npost]
+        used = set()
+
+        class Rw(ast.NodeTransformer):
+            def visit_Expr(self, node):
+                v = node.value
+                if isinstance(v, ast.Call) and ast.unparse(v.func) == st["sink"][0]:
+                    kws = {k.arg: k.value for k in v.keywords}
+                    if v.args or set(kws) != {st["sink"][1]} | set(st["sink"][2]):
+                        raise Unsupported("%s: sink call form: %s" % (info.qual, ast.unparse(v)))
+                    for k, want in st["sink"][2].items():
+                        if ast.unparse(kws[k]) != want:
+                            raise Unsupported("%s: sink call form: %s" % (info.qual, ast.unparse(v)))
+                    used.add("sink")
+                    return ast.copy_location(ast.AugAssign(
+                        target=ast.Name(id="writes__", ctx=ast.Store()), op=ast.Add(),
+                        value=ast.List(elts=[self.visit(kws[st["sink"][1]])], ctx=ast.Load())), node)
+                return self.generic_visit(node)
+
+            def visit_Call(self, node):
+                txt = ast.unparse(node)
+                if txt in st.get("replace", {}):
+                    used.add(txt)
+                    return ast.Name(id=st["replace"][txt], ctx=ast.Load())
+                if txt == st["apply"]:
+                    used.add("apply")
+                    return ast.Call(func=ast.Name(id="apply__", ctx=ast.Load()),
+                                    args=[ast.Constant(value=None), ast.Name(id=st["apply_arg"], ctx=ast.Load())], keywords=[])
+                node = self.generic_visit(node)
+                f = ast.unparse(node.func)
+                for pat, (nm, drop) in st.get("collectives", {}).items():
+                    if f == pat:
+                        for k in node.keywords:
+                            if k.arg not in drop or ast.unparse(k.value) != drop[k.arg]:
+                                raise Unsupported("%s: collective form: %s" % (info.qual, txt))
+                        used.add(pat)
+                        return ast.Call(func=ast.Name(id=nm, ctx=ast.Load()), args=node.args, keywords=[])
+                return node
+
+        mid = [Rw().visit(n) for n in mid]
+        want = {"sink", "apply"} | set(st.get("replace", {})) | set(st.get("collectives", {}))
+        if used != want:
+            raise Unsupported("%s: expected calls not found: %r" % (info.qual, sorted(want - used)))
+        src = "def body__(%s):\n    writes__ = []\n    pass\n    return (writes__,)\n" % ", ".join(st["params"])
+        syn = ast.parse(src).body[0]
+        syn.body = syn.body[:1] + mid + syn.body[2:]
+        ast.fix_missing_locations(syn)
+        opts = dict(info.opts)
+        opts.pop("straight")
+        opts["name"] = info.coqname
+        opts["opaque_fun"] = dict(opts.get("opaque_fun", {}))
+        opts["opaque_fun"]["apply__"] = ("apply", 2)
+        for pat, (nm, drop) in st.get("collectives", {}).items():
             opts["opaque_fun"][nm] = (nm, 1)
         syn_info = FnInfo(info.qual, syn, None, opts)
         syn_info.coqname = info.coqname
